@@ -8,7 +8,7 @@ EXTENDS NDA, TPS, FiniteSetsExt
 
 Dof(A) == Len(A.v[1])
 Elt(A, idx) == A.v[Ravel(idx, A.shape) + 1]                 \* idx 0-based
-Mat(n, m, f(_, _)) == [shape |-> <<n, m>>, v |-> [k \in 1..(n * m) |-> f((k - 1) \div m, (k - 1) % m)]]
+Mat(n, m, f(_, _)) == [shape |-> <<n, m>>, v |-> TLCEval([k \in 1..(n * m) |-> f((k - 1) \div m, (k - 1) % m)])]
 Vec(n, f(_)) == [shape |-> <<n>>, v |-> [k \in 1..n |-> f(k - 1)]]
 SSum(seqOfSeries, D) == LET acc[k \in 0..Len(seqOfSeries)] == IF k = 0 THEN SZero(D) ELSE SAdd(acc[k - 1], seqOfSeries[k])
                         IN acc[Len(seqOfSeries)]
@@ -25,16 +25,16 @@ Dot(A, B) ==
       na == Len(sa) - 1                          \* leading axes of A in the result
       nb == IF Len(sb) = 1 THEN 0 ELSE Len(sb) - 2
   IN [shape |-> rs,
-      v |-> [k \in 1..Size(rs) |->
+      v |-> TLCEval([k \in 1..Size(rs) |->
                LET r == TLCEval(Unravel(k - 1, rs))
                    ia(c) == [a \in 1..Len(sa) |-> IF a <= na THEN r[a] ELSE c]
                    ib(c) == IF Len(sb) = 1 THEN <<c>>
                             ELSE [a \in 1..Len(sb) |-> IF a <= nb THEN r[na + a] ELSE IF a = Len(sb) - 1 THEN c ELSE r[Len(rs)]]
-               IN SSum([c \in 1..K |-> SMul(Elt(A, ia(c - 1)), Elt(B, ib(c - 1)))], D)]]
+               IN SSum([c \in 1..K |-> SMul(Elt(A, ia(c - 1)), Elt(B, ib(c - 1)))], D)])]
 Outer(x, y) == [shape |-> <<x.shape[1], y.shape[1]>>,
                 v |-> [k \in 1..(x.shape[1] * y.shape[1]) |-> SMul(x.v[((k - 1) \div y.shape[1]) + 1], y.v[((k - 1) % y.shape[1]) + 1])]]
-MAdd(A, B) == [shape |-> A.shape, v |-> [k \in 1..Len(A.v) |-> SAdd(A.v[k], B.v[k])]]
-MScale(s, A) == [shape |-> A.shape, v |-> [k \in 1..Len(A.v) |-> SMul(s, A.v[k])]]
+MAdd(A, B) == [shape |-> A.shape, v |-> TLCEval([k \in 1..Len(A.v) |-> SAdd(A.v[k], B.v[k])])]
+MScale(s, A) == [shape |-> A.shape, v |-> TLCEval([k \in 1..Len(A.v) |-> SMul(s, A.v[k])])]
 Ident(n, D) == Mat(n, n, LAMBDA i, j : IF i = j THEN SOne(D) ELSE SZero(D))
 Transp(A) == Mat(A.shape[2], A.shape[1], LAMBDA i, j : Elt(A, <<j, i>>))
 Trace(A) == SSum([i \in 1..A.shape[1] |-> Elt(A, <<i - 1, i - 1>>)], Dof(A))
